@@ -59,3 +59,70 @@ theorem Schedule.valid_of_validB (s : Schedule) (n : Nat) (h : s.validB n = true
   exact ⟨List.isPerm_iff.1 h.1, List.isPerm_iff.1 h.2⟩
 
 end SkNet.Topology
+
+namespace SkNet.Topology
+
+/-! ### OpenMP's static schedule is a valid schedule, for every number of iterations and threads -/
+
+theorem tab_succ {α : Type} (j : Nat) (f : Nat → α) : tab (j+1) f = tab j f ++ [f j] := by
+  unfold tab
+  rw [List.range_succ, List.map_append]
+  rfl
+
+theorem range_append_rangeFrom (a b : Nat) (h : a ≤ b) : List.range a ++ rangeFrom a b = List.range b := by
+  rw [rangeFrom_eq_range', List.range_eq_range', List.range_eq_range']
+  have : b = a + (b - a) := by omega
+  conv => rhs; rw [this]
+  rw [← List.range'_append_1]
+  simp
+
+theorem chunks_flatten (n chunk : Nat) :
+    ∀ j, (tab j fun k => rangeFrom (k * chunk) (min n ((k+1) * chunk))).flatten = List.range (min n (j * chunk)) := by
+  intro j
+  induction j with
+  | zero => simp [tab]
+  | succ j ih =>
+    rw [tab_succ, List.flatten_append, ih]
+    simp only [List.flatten_cons, List.flatten_nil, List.append_nil]
+    have hmul : (j + 1) * chunk = j * chunk + chunk := by rw [Nat.add_mul, Nat.one_mul]
+    by_cases h : j * chunk ≤ n
+    · rw [Nat.min_eq_right h]
+      exact range_append_rangeFrom _ _ (by rw [hmul]; omega)
+    · have h1 : min n (j * chunk) = n := by omega
+      have h2 : min n ((j + 1) * chunk) = n := by rw [hmul]; omega
+      rw [h1, h2, rangeFrom_empty (by omega)]
+      simp
+
+theorem ceil_mul_ge (n t : Nat) (ht : 0 < t) : n ≤ t * ((n + t - 1) / t) := by
+  have h1 := Nat.div_add_mod (n + t - 1) t
+  have h2 := Nat.mod_lt (n + t - 1) ht
+  omega
+
+theorem chain_leaves :
+    ∀ j, ((List.range (j+1)).foldl (fun c k => if k = 0 then c else Comb.node c (Comb.leaf k)) (Comb.leaf 0)).leaves
+      = List.range (j+1) := by
+  intro j
+  induction j with
+  | zero => rfl
+  | succ j ih =>
+    rw [List.range_succ, List.foldl_append]
+    simp only [List.foldl_cons, List.foldl_nil]
+    rw [if_neg (by omega)]
+    show _ ++ [j+1] = _
+    rw [ih]
+
+/-- the schedule the model uses for its own parallel runs is valid, for all `n` and all thread counts -/
+theorem staticSchedule_valid (n t : Nat) : (staticSchedule n t).Valid n := by
+  unfold staticSchedule
+  generalize ht' : (if t = 0 then 1 else t) = t'
+  have htpos : 0 < t' := by rw [← ht']; split <;> omega
+  simp only
+  constructor
+  · rw [chunks_flatten]
+    have := ceil_mul_ge n t' htpos
+    rw [Nat.min_eq_left this]
+  · simp only [tab_length]
+    obtain ⟨j, rfl⟩ : ∃ j, t' = j + 1 := ⟨t' - 1, by omega⟩
+    rw [chain_leaves]
+
+end SkNet.Topology
